@@ -26,7 +26,7 @@ def check_case(rep, case, stats):
     for (name, aff), b in base.items():
         A = gem.affinity(name, aff, x)
         # the unit of the affinity must not matter: MMD (and its gradient) scales with sqrt(s), Wasserstein with s
-        sc = 1.0 if A is None else (1.0, 2.0 ** -46, 2.0 ** 20)[(sum(map(sum, case["a"])) + sum(case["a"][0]) * 7 + case["a"][-1][0] * 3 + len(name) + len(aff) + sum(x)) % 3]
+        sc = 1.0 if A is None else (1.0, 2.0 ** (-30 if name.startswith("wasserstein") else -46), 2.0 ** 20)[(sum(map(sum, case["a"])) + sum(case["a"][0]) * 7 + case["a"][-1][0] * 3 + len(name) + len(aff) + sum(x)) % 3]
         scale_of[(name, aff)] = 1.0 if A is None else (np.sqrt(sc) if name.startswith("mmd") else sc)
         A = None if A is None else A * sc
         for label, g in gem.code_instances(name):
